@@ -702,6 +702,18 @@ func vm11RunCases(imp vm11Importer, cases []vm11Case, from int, reseal bool, bef
 		if before != nil {
 			before(idx)
 		}
+		if (idx-from)%64 == 63 {
+			// every import leaves range tombstones behind; start over on fresh databases
+			// before scans of the accumulated tombstones dominate the run
+			for ti, t := range targets {
+				nt, err := vm11FreshTarget(t.name == "populated")
+				if err != nil {
+					return err
+				}
+				t.d.close()
+				targets[ti] = nt
+			}
+		}
 		for ti, t := range targets {
 			var ierr error
 			perr := ev.Recover(func() { ierr = imp.run(t.d, c.data) })
@@ -898,54 +910,83 @@ func vm11Corruption(r *ev.R, history []string, reseal bool) {
 		return
 	}
 	accepted, rejected, total, crashes := 0, 0, 0, 0
-	for _, imp := range vm11Importers {
-		imp := imp
-		if reseal && !r.Thorough() && imp.name == "restore" {
-			continue // quick tier: the token-clearing variant of the same import path is enumerated
+	// every importer is enumerated on its own databases, concurrently; results are reported
+	// in a fixed order afterwards
+	type impResult struct {
+		results []vm11CaseResult
+		killed  []vm11CaseResult // cases during which the importing child process died
+		err     error
+		cases   []vm11Case
+		stream  []byte
+	}
+	out := make([]*impResult, len(vm11Importers))
+	var wg sync.WaitGroup
+	for i, imp := range vm11Importers {
+		i, imp := i, imp
+		if reseal && !r.Thorough() && (imp.name == "restore" || imp.name == "reader") {
+			continue // quick tier: the token-clearing variant of the same streaming import path is enumerated
 		}
-		stream := x.full
+		res := &impResult{stream: x.full}
 		if imp.business {
-			stream = x.backup
+			res.stream = x.backup
 		}
-		cases := vm11Mutations(stream, reseal)
-		total += len(cases)
+		res.cases = vm11Mutations(res.stream, reseal)
+		out[i] = res
+		wg.Add(1)
+		go func() {
+			defer wg.Done()
+			emit := func(cr vm11CaseResult) { res.results = append(res.results, cr) }
+			if reseal && imp.name == "snapshot" {
+				// the in-memory importer trusts the entry count of a well-sealed payload: run it
+				// in child processes so that a fatal runtime error is observed, not suffered
+				vm11RunIsolated(r, secName, history, imp, len(res.cases), reseal, emit, func(idx int, tail string) {
+					res.killed = append(res.killed, vm11CaseResult{Idx: idx, Label: res.cases[idx].label, Detail: tail})
+				})
+				return
+			}
+			res.err = vm11RunCases(imp, res.cases, 0, reseal, nil, emit)
+		}()
+	}
+	wg.Wait()
+	for i, imp := range vm11Importers {
+		res := out[i]
+		if res == nil {
+			continue
+		}
+		if res.err != nil {
+			r.HarnessError("%s: %s: %v", secName, imp.name, res.err)
+			return
+		}
+		total += len(res.cases)
+		stream := res.stream
 		replay := func(label, target string) map[string]any {
 			return map[string]any{"section": secName, "history": history, "case": label, "importer": imp.name, "target": target}
 		}
-		emit := func(res vm11CaseResult) {
-			where := fmt.Sprintf("%s: %s via %s into %s target (stream %d bytes)", secName, res.Label, imp.name, res.Target, len(stream))
-			switch res.Outcome {
+		for _, cr := range res.results {
+			where := fmt.Sprintf("%s: %s via %s into %s target (stream %d bytes)", secName, cr.Label, imp.name, cr.Target, len(stream))
+			switch cr.Outcome {
 			case "rejected":
 				rejected++
 			case "accepted":
 				accepted++
 			case "panic":
-				r.Violation(ev.Violation{Fingerprint: "C11:meta-import-panics:" + imp.name, Message: where + ": " + res.Detail, System: secName, Replay: replay(res.Label, res.Target)})
+				r.Violation(ev.Violation{Fingerprint: "C11:meta-import-panics:" + imp.name, Message: where + ": " + cr.Detail, System: secName, Replay: replay(cr.Label, cr.Target)})
 			case "partially-applied":
 				fp := "C11:meta-rejected-stream-partially-applied:" + imp.name
 				if !reseal {
 					fp = "C11:meta-corrupted-stream-partially-applied:" + imp.name
 				}
-				r.Violation(ev.Violation{Fingerprint: fp, Message: fmt.Sprintf("%s: import failed (%s) but the target hash slot changed", where, res.Detail), System: secName, Replay: replay(res.Label, res.Target)})
+				r.Violation(ev.Violation{Fingerprint: fp, Message: fmt.Sprintf("%s: import failed (%s) but the target hash slot changed", where, cr.Detail), System: secName, Replay: replay(cr.Label, cr.Target)})
 			case "corrupted-accepted":
-				r.Violation(ev.Violation{Fingerprint: "C11:meta-corrupted-stream-accepted:" + imp.name, Message: where + ": import of a corrupted stream succeeded", System: secName, Replay: replay(res.Label, res.Target)})
+				r.Violation(ev.Violation{Fingerprint: "C11:meta-corrupted-stream-accepted:" + imp.name, Message: where + ": import of a corrupted stream succeeded", System: secName, Replay: replay(cr.Label, cr.Target)})
 			}
-			e.Case(where, true, res.Outcome)
+			e.Case(where, true, cr.Outcome)
 		}
-		if reseal && imp.name == "snapshot" {
-			// the in-memory importer trusts the entry count of a well-sealed payload: run it
-			// in child processes so that a fatal runtime error is observed, not suffered
-			vm11RunIsolated(r, secName, history, imp, len(cases), reseal, emit, func(idx int, tail string) {
-				crashes++
-				where := fmt.Sprintf("%s: %s via %s (stream %d bytes)", secName, cases[idx].label, imp.name, len(stream))
-				r.Violation(ev.Violation{Fingerprint: "C11:meta-import-kills-process:" + imp.name, Message: where + ": the importing process died: " + tail, System: secName, Replay: replay(cases[idx].label, "any")})
-				e.Case(where, true, "process-killed")
-			})
-			continue
-		}
-		if err := vm11RunCases(imp, cases, 0, reseal, nil, emit); err != nil {
-			r.HarnessError("%s: %v", secName, err)
-			return
+		for _, cr := range res.killed {
+			crashes++
+			where := fmt.Sprintf("%s: %s via %s (stream %d bytes)", secName, cr.Label, imp.name, len(stream))
+			r.Violation(ev.Violation{Fingerprint: "C11:meta-import-kills-process:" + imp.name, Message: where + ": the importing process died: " + cr.Detail, System: secName, Replay: replay(cr.Label, "any")})
+			e.Case(where, true, "process-killed")
 		}
 	}
 	e.Done(true, map[string]any{"history": history, "full_stream_bytes": len(x.full), "backup_stream_bytes": len(x.backup), "mutated_streams": total, "importers": 4, "targets": 2, "resealed_checksum": reseal},
@@ -1143,6 +1184,9 @@ func TestVerifC11Meta(t *testing.T) {
 	defer r.Finish()
 	vm11Setup()
 	depth := ev.Pick(r, 3, 4)
+	if os.Getenv("VM11_ONLY") != "" {
+		depth = 1
+	}
 	res := mc.Run(r, mc.System{
 		Name: "meta-snapshot-roundtrip", New: vm11NewInst, MaxDepth: depth,
 		Bounds: map[string]any{"hash_slots": []uint16{vm11Slot, vm11Other}, "alphabet": "user u1 create/update/delete, user u2 upsert/delete, device upsert x2, channel create/update/delete, subscribers add {u1,u2} / remove u1, runtime routing row epoch 1,2, user in the neighbour slot"},
@@ -1169,6 +1213,10 @@ func TestVerifC11Meta(t *testing.T) {
 		return
 	}
 	r.Guard("meta-roundtrip-states", res.States >= 30, "%d states explored", res.States)
+	if os.Getenv("VM11_ONLY") == "reseal" {
+		vm11Corruption(r, fixed, true)
+		return
+	}
 	vm11Corruption(r, fixed, false)
 	vm11Corruption(r, fixed, true)
 	vm11CrashRetry(r, fixed, vm11Importers[1])
